@@ -3,7 +3,7 @@
    handler compared with the direct handler model (C06, C13). *)
 From Coq Require Import String.
 From Rend Require Import base.Bytes base.Harness gen.Consts_gen spec.MapSpec orca.Types handlers.Std
-  handlers.Batched checks.Check04.
+  handlers.Batched handlers.BatchedRetry checks.Check04.
 Open Scope N_scope.
 
 Inductive case06 :=
@@ -18,7 +18,12 @@ Inductive case06 :=
 | K6Conc (now : N) (callers : list (list (hreq * hres)))
 (* the retry bookkeeping of a multi-key get: requested items, results served so far, the
    request that is re-submitted *)
-| K6Retry (items : list gitem) (served : list gres) (retry : list gitem).
+| K6Retry (items : list gitem) (served : list gres) (retry : list gitem)
+(* Handler.doRequest: one single-key call through a pool of [tries]/2 connections on a backend
+   holding [setup]; submission i is cut as [cuts] says (Some (0, 0): before the backend applied
+   it, Some (0, 1): after it applied it, before the reply); the result and the backend contents *)
+| K6Do (now : N) (keys : list bytes) (setup : list (bytes * entry)) (tries : nat) (cuts : list (option (nat * nat)))
+       (q : hreq) (obs : hres) (dump : list (bytes * entry)).
 
 Definition opcode_of (w : wreq) : N :=
   match w with
@@ -92,5 +97,16 @@ Definition check06 (c : case06) : N :=
       let corr := same_multiset retry (retry_request pending) in
       (* nothing requested may be dropped from the retry: pending = requested - served *)
       let oracle := same_multiset retry pending in
+      if negb oracle then (if corr then 3 else 2) else if negb corr then 1 else 0
+  | K6Do now keys setup tries cuts q obs dump =>
+      let s0 := of_dump setup in
+      let '(s', r) := do_request false tries (repeat 0 tries) cuts q s0 now in
+      let after := of_dump dump in
+      let corr := hres_eqb r obs && stores_agree now keys s' after in
+      (* at most once: the backend holds what it held before or what ONE application leaves;
+         an acknowledged call was applied *)
+      let once := fst (std_exec s0 now q) in
+      let oracle := (stores_agree now keys s0 after || stores_agree now keys once after) &&
+                    (match obs with HDone => stores_agree now keys once after | _ => true end) in
       if negb oracle then (if corr then 3 else 2) else if negb corr then 1 else 0
   end.
